@@ -76,6 +76,13 @@ pub fn docs_core() -> Vec<Value> {
         // floats one ulp apart: ordering operators are exact
         json!({"a": 0.30000000000000004, "b": 0.3}),
         json!([0.3, 0.30000000000000004, 1.0000000000000002, 1.0]),
+        // an integer against a float with the same integral part (both signs), and a float against the neighbouring
+        // integers above 2^53: one numeric order across the representations
+        json!({"a": 0, "b": -0.5}),
+        json!({"a": -1, "b": -1.5}),
+        json!({"a": 1.5, "b": 1}),
+        json!({"a": 9007199254740993u64, "b": 9007199254740992.0}),
+        json!([0, -0.5, -1, -1.5, 1.5, 1, -0.0, 0.0]),
     ]
 }
 
